@@ -111,7 +111,7 @@ def check_lane(case, finding_lane=False):
         labels.append('name-delayed-by-pastifier')
     delayed = {}     # the delayed-input defect is fixed (KNOWN_FINDINGS.txt): every name is compared
     got = {}
-    sur = case.get('surplus')
+    sur = case.get('surplus') if not case.get('surplus_is_sub') else None      # (a column named like a requirement: get_value() is the requirement)
     supplied = []
 
     def collect(spec, i):
@@ -125,6 +125,8 @@ def check_lane(case, finding_lane=False):
         outs = feed(case, host, collect, supplied)
     except Exception as e:  # noqa
         return DISCARD('host-raises(C09/C17):' + type(e).__name__, labels)
+    if case.get('surplus_is_sub'):
+        labels.append('data-column-named-like-a-requirement')
     if sur:
         # a declared variable that no requirement reads is an input variable too: the data supplied for it
         labels.append('surplus-variable')
@@ -302,6 +304,10 @@ def surplus_hosts(tier):
         c = draw(decomposed(draw(st.sampled_from(KINDS)), tier))
         c['surplus'] = 'spare'
         c['surplus_pos'] = draw(st.integers(0, 3))
+        if c['subs'] and c['kind'].startswith('dt') and draw(st.integers(0, 2)) == 0:
+            # the data carry a column / an entry under the name of a requirement (a log that recorded it): it is not an input
+            c['surplus'] = draw(st.sampled_from(sub_names(c)))
+            c['surplus_is_sub'] = True
         return c
     return mk()
 
